@@ -40,6 +40,9 @@ GEN_TABLES = {
              {"nw": 2, "kind": "pause", "del": True, "maxfail": 1, "wait": True}),
     "nw1": (dict(M.BASE, NT=3, NW=1, Kind="pause", MaxRep=3, MaxRuns=3, FailB=1, MaxFail=0, R3=False, R13=False),
             {"nw": 1, "kind": "pause", "del": True, "maxfail": 0}),
+    # PBT-type scheduler: clone decisions queued in on_trial_result, popped by suggest (R8: see known finding F08)
+    "pbt": (dict(M.BASE, NT=4, Kind="pbt", MaxRep=3, MaxRuns=1, FailB=1, R3=False, R13=False, R8=True),
+            {"nw": 2, "kind": "pbt", "del": True, "maxfail": 1}),
 }
 
 
@@ -52,6 +55,8 @@ COVER_TABLES = {
     "stop2": (dict(M.BASE, NT=2, NW=2, Kind="stop", MaxRep=2, MaxRuns=1, FailB=1, ExtB=1, MaxFail=0, EmptyExit=True,
                    R3=False, R13=False),
               {"nw": 2, "kind": "stop", "del": False, "maxfail": 0}),
+    "pbt3": (dict(M.BASE, NT=3, NW=2, Kind="pbt", MaxRep=2, MaxRuns=1, FailB=0, R3=False, R13=False, R8=True),
+             {"nw": 2, "kind": "pbt", "del": True, "maxfail": 1}),
     "pause2x2": (dict(M.BASE, NT=2, NW=2, MaxRep=2, MaxRuns=2, FailB=1, R3=False, R13=False),
                  {"nw": 2, "kind": "pause", "del": True, "maxfail": 1}),
 }
@@ -114,6 +119,7 @@ def validate_traces(rep, traces, scripts, pid, flags_of_interest, tag):
                 det = {"campaign": tag, "conf": tr["conf"], "events": tr["ev"], "all_flags": sorted(v.flags)}
                 if scripts and isinstance(scripts[k], dict) and "scheduler" in scripts[k]:
                     det["run"] = scripts[k]            # a real-scheduler run: (scheduler, seed, n_workers, ...)
+                    sig["scheduler"] = scripts[k]["scheduler"]
                 else:
                     det["script"] = scripts[k] if scripts else None
                 rep.violation(sig, det)
@@ -154,7 +160,7 @@ def model_finding_demo(rep, pid, restriction, invariant, base="pause_2t"):
     return r.violated
 
 
-def standard_campaign(rep, pid, tier, seed, tables=None, n_sim=None):
+def standard_campaign(rep, pid, tier, seed, tables=None, n_sim=None, covers=()):
     flags = set(M.PROP_FLAGS[pid])
     tables = tables or list(GEN_TABLES)
     n_sim = n_sim or (150 if tier == "quick" else 1500)
@@ -165,7 +171,7 @@ def standard_campaign(rep, pid, tier, seed, tables=None, n_sim=None):
         for k, v in c.items():
             total[k] = total.get(k, 0) + v
         rep.replays += len(gen)
-    for name in (["pause1", "pause2", "stop2"] if tier == "quick" else list(COVER_TABLES)):
+    for name in (["pause1", "pause2", "stop2"] + [c for c in covers] if tier == "quick" else list(COVER_TABLES)):
         gen, conf, r = cover(name, 500 if tier == "quick" else 5000, seed)
         rep.model(f"TunerLoop_Gen[{name}, cover]", r)
         c = drive_and_validate(rep, [(g, conf) for g in gen], pid, flags, f"cover:{name}")
